@@ -128,7 +128,13 @@ func Execute(t *testing.T, sc *Scenario, tier string, seed uint64, index int, ta
 		Replaying: replaying,
 		Counters:  map[string]int{}, Pairs: map[string]struct{}{}, Knobs: map[string]int{},
 	}
-	func() {
+	// The bubble is entered from a goroutine of its own: when the race detector
+	// fires during a run, the testing package fails the bubble's T and
+	// synctest.Test calls FailNow (runtime.Goexit) on its caller, which must not
+	// be the worker loop.
+	done := make(chan struct{})
+	go func() {
+		defer close(done)
 		defer func() {
 			if r := recover(); r != nil {
 				msg := fmt.Sprint(r)
@@ -146,6 +152,7 @@ func Execute(t *testing.T, sc *Scenario, tier string, seed uint64, index int, ta
 			sc.Run(rc)
 		})
 	}()
+	<-done
 	return rc
 }
 
